@@ -299,4 +299,80 @@ theorem mapSetItemAddrH_eq (h : Heap) (hw : h.WF) (ents : List Nat) (es : List (
     simp only [mapSetItemAddrH, mapSetItemH, hh0, hfe, hop1, entrySetValue, read, he', hcl, hc, hb]
     rfl
 
+/-- **`cif_value_set_element_at` with the caller's object** (an object outside the list) = the pure-value form applied to
+    the value it represents -/
+theorem listSetAddrH_eq (h : Heap) (hw : h.WF) (hv : HVal) (vs : List V) (F : List Nat) (i : Nat) (src : Option Nat)
+    (x : Option V) (hr : Rep h hv (.lst vs) F) (hF : ∀ a, a ∈ F → a < h.next) (hi : i < vs.length) (fuelSrc : Nat)
+    (hx : SrcRepOutside h fuelSrc F src x) :
+    listSetAddrH fuelSrc (need (.lst vs)) h hv i src = listSetH (need (.lst vs)) h hv i x := by
+  simp only [Rep] at hr
+  rcases hr with ⟨rfl, _, _, _⟩ | ⟨arr, xs, cap, F1, rfl, harr, hcap, hel, hnot, rfl⟩
+  · simp at hi
+  · obtain ⟨t, v, hvt, Ft, hxi, hvi, ht, hrept, htF, hsubF, htmem, _⟩ := RepElems_replace h vs xs F1 i hel hi
+    have hneed := need_le_needList vs i v hvi
+    obtain ⟨h1, hcl, c1⟩ := cleanVal_spec v h hvt Ft (need (.lst vs)) hrept (by simp [need]; omega)
+    have hw1 : h1.WF := Cleared.wf c1 hw
+    have hag : ∀ a, a < h.next → a ∉ F1 ++ [arr] → h1.cell a = h.cell a := by
+      intro a _ hna
+      have : a ∉ Ft := fun hm => hna (by simp [hsubF a hm])
+      rw [c1.2 a, if_neg this]
+    have hc := copyFields_build h h1 hw1 (F1 ++ [arr]) src x fuelSrc hx (by rw [c1.1]; exact Nat.le_refl _) hag hw
+    generalize hb : buildVal h1 (x.getD .unk) = rb at hc
+    obtain ⟨new, h2⟩ := rb
+    simp only [listSetAddrH, listSetH, read, harr, hxi, ht, hcl, hc, hb]
+
+/-! ### members are exposed by reference -/
+
+/-- **`cif_value_get_element_at` hands out the element object itself**: the address returned is a block of the list's own
+    footprint holding the element's fields (no copy is made — the getter does not touch the heap), and writing through it
+    IS writing the list: re-initialising the object it designates (`cif_value_init`, `copy_char`, `parse_numb`, … through the
+    pointer) is the same heap transformation as `cif_value_set_element_at(list, i, …)`, after which the unchanged list
+    object represents the list with element `i` replaced -/
+theorem listGetH_by_reference (h : Heap) (hw : h.WF) (hv : HVal) (vs : List V) (F : List Nat) (i : Nat)
+    (hr : Rep h hv (.lst vs) F) (hF : ∀ a, a ∈ F → a < h.next) (hi : i < vs.length) :
+    ∃ t v hvt Ft, listGetH h hv i = some t ∧ vs[i]? = some v ∧ h.cell t = some (.val hvt) ∧ Rep h hvt v Ft
+      ∧ t ∈ F ∧ (∀ a, a ∈ Ft → a ∈ F)
+      ∧ ∀ x : V, reinitH (need (.lst vs)) h t x = listSetH (need (.lst vs)) h hv i (some x)
+          ∧ ∃ h' F', reinitH (need (.lst vs)) h t x = some h' ∧ Rep h' hv (.lst (vs.set i x)) F' ∧ h'.WF
+              ∧ (∀ a, a < h.next → a ∉ F → h'.cell a = h.cell a) := by
+  have hr' := hr
+  simp only [Rep] at hr
+  rcases hr with ⟨rfl, _, _, _⟩ | ⟨arr, xs, cap, F1, rfl, harr, hcap, hel, hnot, rfl⟩
+  · simp at hi
+  · obtain ⟨t, v, hvt, Ft, hxi, hvi, ht, hrept, htF, hsubF, htmem, _⟩ := RepElems_replace h vs xs F1 i hel hi
+    refine ⟨t, v, hvt, Ft, by simp [listGetH, read, harr, hxi], hvi, ht, hrept, by simp [htmem],
+      fun a ha => by simp [hsubF a ha], ?_⟩
+    intro x
+    have heq : reinitH (need (.lst vs)) h t x = listSetH (need (.lst vs)) h (.lst (some arr) xs.length) i (some x) := by
+      simp [reinitH, listSetH, read, harr, hxi, ht]
+    obtain ⟨h', F', hop, hrep, hwf, hframe, _, _, _⟩ := listSetH_spec h hw (.lst (some arr) xs.length) vs (F1 ++ [arr]) i (some x) hr' hF hi
+    exact ⟨heq, h', F', by rw [heq]; exact hop, by simpa using hrep, hwf, hframe⟩
+
+/-- **`cif_value_get_item_by_key` / `cif_packet_get_item` hand out the entry's inline value itself**: the address
+    returned is the entry block (its value is the first member), part of the map's footprint; assigning through it
+    (clean, then the new components, written into the same entry) leaves the map representing the association list with
+    that one value replaced — key, spelling and position unchanged -/
+theorem tableGetH_by_reference (h : Heap) (hw : h.WF) (ents : List Nat) (es : List (Str × Str × V)) (F : List Nat)
+    (nk : Str) (hr : RepEntries h ents es F) (hF : ∀ a, a ∈ F → a < h.next) (fuel : Nat) (hfuel : needEntries es ≤ fuel) :
+    (Value.mapFind es nk = none ∧ tableGetH h ents nk = some none)
+    ∨ ∃ e ko v Fe, Value.mapFind es nk = some (nk, ko, v) ∧ tableGetH h ents nk = some (some e) ∧ RepEntry h e nk ko v Fe
+        ∧ (∀ a, a ∈ Fe → a ∈ F)
+        ∧ ∀ x : V, ∃ h' F', entrySetValue fuel h e (some x) = some h'
+            ∧ RepEntries h' ents (Value.mapReplace es nk ko x) F' ∧ h'.WF
+            ∧ (∀ a, a < h.next → a ∉ F → h'.cell a = h.cell a) := by
+  rcases RepEntries_find h es ents F nk hr with ⟨hmf, hfe⟩ | ⟨e, ko, v, Fe, hmf, hfe, hre, hsubF, hrepl, _⟩
+  · exact Or.inl ⟨hmf, hfe⟩
+  · refine Or.inr ⟨e, ko, v, Fe, hmf, hfe, hre, hsubF, ?_⟩
+    intro x
+    have hFe : ∀ a, a ∈ Fe → a < h.next := fun a ha => hF a (hsubF a ha)
+    have hneed := need_le_needEntries es nk ko v hmf
+    obtain ⟨h', Fe', hop, hre', hw', _, hfr, _, _, _, hsub⟩ :=
+      entrySetValue_spec h hw e nk ko v Fe (some x) hre hFe fuel (by omega)
+    obtain ⟨F', hrep', _⟩ := hrepl h' ko x Fe' hre' (fun a ha hna => hfr a (hF a ha) hna)
+      (fun a ha haF => by
+        rcases hsub a ha with hh | hh
+        · exact hh
+        · have := hF a haF; omega)
+    exact ⟨h', F', hop, hrep', hw', fun a ha hna => hfr a ha (fun hm => hna (hsubF a hm))⟩
+
 end CifModel.Model.Heap
